@@ -124,6 +124,7 @@ fn gen_inputs(dir: &Path) -> Vec<Input> {
 }
 
 fn all_inputs(dir: &Path) -> Vec<Input> {
+    let out_dir = dir;
     let mut v = vec![];
     for n in ["test.dmp", "linux-mini.dmp"] {
         v.push(Input { name: format!("corpus/{n}"), path: PathBuf::from(format!("/repo/testdata/{n}")), kind: InputKind::Dump });
@@ -174,6 +175,28 @@ fn all_inputs(dir: &Path) -> Vec<Input> {
         let p = dir.join("mac-boot-args.dmp");
         std::fs::write(&p, d.finish().expect("synth")).expect("write");
         v.push(Input { name: "generated/mac-boot-args".into(), path: p, kind: InputKind::Dump });
+    }
+    {
+        // a dump whose CrashpadInfo stream is present but unreadable (its version field is 0)
+        'found: for (name, bytes) in vh::seeds::synthetic_seeds() {
+            if !bytes.starts_with(b"MDMP") || bytes.len() < 32 {
+                continue;
+            }
+            let rd = |o: usize| u32::from_le_bytes(bytes[o..o + 4].try_into().unwrap()) as usize;
+            let (count, dir) = (rd(8), rd(12));
+            for k in 0..count {
+                let e = dir + 12 * k;
+                if e + 12 <= bytes.len() && rd(e) == 0x4350_0001 && rd(e + 8) + 4 <= bytes.len() {
+                    let mut b = bytes.clone();
+                    let rva = rd(e + 8);
+                    b[rva..rva + 4].copy_from_slice(&0u32.to_le_bytes());
+                    let p = out_dir.join("crashpad-version-0.dmp");
+                    std::fs::write(&p, &b).expect("write");
+                    v.push(Input { name: format!("generated/crashpad-info-unreadable (from {name})"), path: p, kind: InputKind::Dump });
+                    break 'found;
+                }
+            }
+        }
     }
     for (name, _b) in vh::seeds::corpus_seeds() {
         let n = name.trim_start_matches("corpus/").to_string();
